@@ -207,7 +207,9 @@ PROPS = {
     "C12": sync_prop(C12T, ["failed-create", "failed-update", "failed-delete", "failed-updateStatus", "outcome-error"],
                      "non-trivial = some request failed or the sync reported an error" + RULE_ROUNDS, ["outcome", "children", "status", "claim", "revisions", "finalizer", "parent"],
                      extra_streams=[rounds("faults", 96, 960, ["rounds-faults", "failed-create", "failed-update", "failed-delete", "failed-updateStatus", "outcome-error"]),
-                                    rounds("malformed", 800, 8000, ["outcome-error", "hook-sync", "hook-finalize"])]),
+                                    rounds("malformed", 800, 8000, ["outcome-error", "hook-sync", "hook-finalize"]),
+                                    # rollouts with a crash or an API fault aimed at a ControllerRevision write: a failed revision write is an error of the sync
+                                    rounds("crash", 60, 360, ["failed-create", "failed-update", "failed-delete", "outcome-error"])]),
     "C13": sync_prop(C13T, ["outcome-error", "hook-sync", "hook-finalize"],
                      "non-trivial = a hook was called; malformed stream: the scripted hook answer with one value at a random path replaced by every JSON type, "
                      "truncated / non-object / null bodies and non-200 codes", ["outcome", "hook", "children"],
